@@ -1,0 +1,41 @@
+//go:build verif
+
+package bip39
+
+// Machine-checked contracts for this package (read by /verif/govc; comment-only, compiled only
+// with -tags verif). See /verif/DESIGN.md.
+//
+// Component level: the size rules, the checksum (first ENT/32 bits of SHA-256) and the re-padding
+// of the entropy to ENT/8 bytes, which must put the zero bytes in front (the big.Int round trip drops
+// leading zero bytes, not trailing ones).
+
+//@ props C03
+
+//@ func entropyBitsToWordCount(n int) (r int)
+//@   requires 0 <= n && n <= 1000000
+//@   panics  never
+//@   ensures r == 3*n/32
+
+//@ func wordCountToEntropyBits(n int) (r int)
+//@   requires 0 <= n && n <= 1000000
+//@   panics  never
+//@   ensures r == 32*n/3
+
+//@ func validateEntropy(entropy []byte) (err error)
+//@   requires len(entropy) <= 1152921504606846975
+//@   panics  never
+//@   ensures isnil(err) == (len(entropy) % 4 == 0 && 16 <= len(entropy) && len(entropy) <= 64)
+//@   ensures implies(!isnil(err), is(err, ErrInvalidEntropySize))
+
+//@ func padBytes(b []byte, size int) (r []byte)
+//@   panics  when len(b) > size
+//@   ensures len(r) == size
+//@   ensures forall(j, 0, size - len(b), r[j] == 0)
+//@   ensures forall(j, 0, len(b), r[size - len(b) + j] == b[j])
+
+// (the shift amount must be a constant for the big.Int model: one proof per checksum size ENT/32)
+//@ func computeChecksum(bytes []byte, numBits int) (r *big.Int)
+//@   specialize NB = 4 5 6 7 8 9 10 11 12 13 14 15 16
+//@   requires numBits == NB
+//@   panics  never
+//@   ensures r != nil && *r == be(sha256(bytes)[0:32]) / pow(2, 256 - NB) && 0 <= *r && *r < pow(2, NB)
